@@ -3,7 +3,9 @@ package props
 import (
 	"encoding/json"
 	"fmt"
+	"reflect"
 	"sort"
+	"strings"
 	"testing"
 
 	"github.com/zmap/zlint/v3/lint"
@@ -131,8 +133,42 @@ func scopeBases() []gen.Obj {
 	return out
 }
 
+// freshInstances: every registered constructor returns a new instance per
+// call (pointer identity; zero-size types may legitimately share an address).
+func freshInstances(rec *stats.Rec, bad func(sig, msg string)) {
+	chk := func(name string, a, b interface{}) {
+		rec.Eval()
+		va, vb := reflect.ValueOf(a), reflect.ValueOf(b)
+		if va.Kind() != reflect.Ptr || vb.Kind() != reflect.Ptr || va.IsNil() || vb.IsNil() {
+			return
+		}
+		if va.Elem().Type().Size() == 0 {
+			rec.Class("zero_size_lint_type")
+			return
+		}
+		if va.Pointer() == vb.Pointer() {
+			bad("shared-instance|"+name, "two constructor calls return the same lint instance: state can leak between executions")
+		}
+	}
+	g := lint.GlobalRegistry()
+	for _, l := range g.CertificateLints().Lints() {
+		chk(l.Name, l.Lint(), l.Lint())
+	}
+	for _, l := range g.RevocationListLints().Lints() {
+		chk(l.Name, l.Lint(), l.Lint())
+	}
+	for _, l := range g.OcspResponseLints().Lints() {
+		chk(l.Name, l.Lint(), l.Lint())
+	}
+}
+
 func TestC04(t *testing.T) {
 	rec := newRec(t, "C04")
+	freshInstances(rec, func(sig, msg string) {
+		if rec.Report("c04", sig, msg, engine.Case{Note: sig}) {
+			t.Errorf("c04: %s: %s", sig, msg)
+		}
+	})
 	// baseline stages of the corpus, to tell "position changed" cases
 	baseStage := func(o gen.Obj) map[string]model.Stage {
 		r := engine.Execute(engine.Case{Kind: o.Kind, DER: o.DER}, true)
@@ -248,6 +284,15 @@ func init() {
 		var c engine.Case
 		if err := json.Unmarshal(raw, &c); err != nil {
 			return "decode", err.Error()
+		}
+		if strings.HasPrefix(c.Note, "shared-instance|") {
+			s, m := "", ""
+			freshInstances(rec, func(sig, msg string) {
+				if sig == c.Note {
+					s, m = sig, msg
+				}
+			})
+			return s, m
 		}
 		sig, msg, _ := judgeLifecycle(rec, c)
 		return sig, msg
